@@ -126,6 +126,31 @@ Example C07_nonvacuous_doc :
   lookup (doc_comps demo_doc) (s "Node") = Some (component V31 (nth 1 demo_decls (mkDecl [] [] (DAlias Tstr)))).
 Proof. exact demo_doc_facts. Qed.
 
+(* sub-claim 5 of the oracle (prop_C07_refs): a usage of a declared type is a reference to that type's
+   component whatever the type is called.  Full statement: forall fs, struct_by_text_strict fs (struct_comp fs)
+   = true.  The emitters dispatch on the bare identifier, so it is proved for field types whose declared names
+   the emitters give no meaning to, and refuted for a struct the project calls Time *)
+Theorem C07_struct_shape_strict_partial : forall fs,
+  (forall f, In f fs -> unshadowed (f_type f) = true) -> struct_by_text_strict fs (struct_comp fs) = true.
+Proof. exact struct_shape_strict. Qed.
+
+Theorem C07_struct_shape_strict_refuted :
+  struct_by_text time_shadow_fields (struct_comp time_shadow_fields) = true /\
+  struct_by_text_strict time_shadow_fields (struct_comp time_shadow_fields) = false /\
+  map snd (k_props (struct_comp time_shadow_fields)) =
+    [SType (s "string") (s "date-time"); SArr (SType (s "string") (s "date-time"))].
+Proof. exact struct_shape_strict_refuted. Qed.
+
+Example C07_unshadowed_nonvacuous :
+  unshadowed (TMap (TPrim (s "string")) (TSlice (TPtr (TNamed (s "types") (s "Duration"))))) = true /\
+  forallb (fun n => unshadowed (TNamed (s "types") (s n)))
+          ["Duration"; "Int"; "String"; "Any"; "Error"; "Bytes"; "Object"; "Context"; "tracking"]%string = true /\
+  unshadowed (TNamed (s "types") (s "Time")) = false.
+Proof. exact unshadowed_example. Qed.
+
+Print Assumptions C07_struct_shape_strict_partial.
+Print Assumptions C07_struct_shape_strict_refuted.
+Print Assumptions C07_unshadowed_nonvacuous.
 Print Assumptions C07_reach_fuel_enough.
 Print Assumptions C07_reach_spec.
 Print Assumptions C07_closure_keys.
